@@ -35,6 +35,30 @@ func init() {
 // concFresh is run in a process of its own: its very first use of the writer package is the registration of a
 // driver for a built-in format, sequentially or racing the first constructor call.
 func concFresh(args []string) error {
+	if len(args) > 0 && strings.HasPrefix(args[0], "unregister") {
+		// the very first use of the writer package is the REMOVAL of a built-in format (sequentially, or racing the first
+		// constructor calls): afterwards the format is gone
+		done := make(chan struct{})
+		if args[0] == "unregister-racing" {
+			go func() {
+				for i := 0; i < 4; i++ {
+					writer.New()
+				}
+				close(done)
+			}()
+		} else {
+			close(done)
+		}
+		writer.UnregisterSerializer(formats.CDX15JSON)
+		<-done
+		writer.New()
+		got := "err"
+		if s, err := writer.GetFormatSerializer(formats.CDX15JSON); err == nil && s != nil {
+			got = "built-in"
+		}
+		fmt.Println("FRESH", got)
+		return nil
+	}
 	racing := len(args) > 0 && args[0] == "racing"
 	done := make(chan struct{})
 	if racing {
@@ -534,7 +558,7 @@ func concRun(args []string) error {
 	}
 	if mode == "registry" {
 		// fresh processes (registry mode only)
-		for _, variant := range []string{"sequential", "racing", "racing", "racing"} {
+		for _, variant := range []string{"sequential", "racing", "racing", "racing", "unregister", "unregister-racing", "unregister-racing"} {
 			outb, err := exec.Command(*racebin, "conc-fresh", variant).CombinedOutput()
 			got := "crash"
 			if err == nil {
@@ -547,7 +571,11 @@ func concRun(args []string) error {
 			if strings.Contains(string(outb), "WARNING: DATA RACE") {
 				got = "race"
 			}
-			w.write(map[string]any{"op": "FRESH", "sid": 2000, "variant": variant, "got": got, "want": "mine"})
+			want := "mine"
+			if strings.HasPrefix(variant, "unregister") {
+				want = "err"
+			}
+			w.write(map[string]any{"op": "FRESH", "sid": 2000, "variant": variant, "got": got, "want": want})
 		}
 	}
 	w.write(map[string]any{"op": "RACE", "sid": 0, "mode": mode, "races": races, "sites": sl, "abort": abort})
